@@ -719,3 +719,189 @@ def c05_corr(res, exe, driver, tier, seed, tmp):
                 "completion that is aborted: the B parts must behave identically (states, undo results, returned line).")
     for c, impl, model, raw in out[:3]:
         res.samples.append({"keys": c.keys, "impl": " ## ".join(impl)[:400]})
+
+
+# ---------------------------------------------------------------- C06: kill ring
+
+KILL_TAGS = {"killeol", "killbol", "killbbig", "killfword", "killbword"}
+
+
+def gen_c06(rng):
+    cmds = []
+    for ch in p_tty.rand_text(rng, 4, 16, ["a", "b", " ", " ", ",", "é", "日", "x", "(", "_", "o", "\n"]):
+        cmds.append(Cmd([ch] if ch != "\n" else ["C-v", "C-j"], "ins", c=ord(ch), n=1))
+    popped = False
+    for _ in range(rng.randint(4, 22)):
+        r = rng.random()
+        if r < 0.38 and not popped:
+            key, tag = rng.choice([("C-k", "killeol"), ("C-u", "killbol"), ("C-w", "killbbig"), ("M-d", "killfword"),
+                                   ("M-Backspace", "killbword"), ("C-w", "killbbig"), ("M-d", "killfword")])
+            cmds.append(Cmd([key], tag))
+        elif r < 0.50:
+            cmds.append(Cmd(["C-y"], "yank"))
+            k = rng.choice([0, 0, 1, 2, 3])
+            for _ in range(k):
+                cmds.append(Cmd(["M-y"], "yankpop"))
+                popped = True
+        elif r < 0.55:
+            if cmds and cmds[-1].tag in KILL_TAGS:
+                continue      # a failed yank-pop between two kills does not end the run in rustyline (like Noop / C-l): not judged
+            cmds.append(Cmd(["M-y"], "yankpop"))       # not after a yank unless the previous command was one
+            if cmds[-2].tag in ("yank", "yankpop"):
+                popped = True
+        elif r < 0.65:
+            key, tag = rng.choice([("Backspace", "bs"), ("Delete", "del"), ("C-h", "bs")])
+            cmds.append(Cmd([key], tag))
+        elif r < 0.85:
+            key, tag = rng.choice([("C-b", "left"), ("C-f", "right"), ("C-a", "home"), ("C-e", "end"), ("M-b", "bword"), ("M-f", "fword")])
+            cmds.append(Cmd([key], tag))
+        else:
+            c = rng.choice(["a", " ", ",", "é"])
+            cmds.append(Cmd([c], "ins", c=ord(c), n=1))
+    return cmds
+
+
+def c06_oracle_cases(tier, seed):
+    rng = random.Random(seed * 1201 + 11)
+    n = 3000 if tier == "thorough" else 260
+    cases = []
+    for _ in range(n):
+        cmds = gen_c06(rng) + [Cmd(["Enter"], "enter")]
+        if rng.random() < 0.3:       # the ring survives the read
+            cmds += [Cmd(["C-y"], "yank")] + [Cmd(["M-y"], "yankpop")] * rng.randint(0, 2) + [Cmd(["Enter"], "enter")]
+        cases.append(script_case(cmds, mode="emacs", reads=3, timeout=rng.choice(["none", 0]), prompt="> "))
+    return cases
+
+
+def bytes_of(text):
+    return "".join(chr(c) for c in text).encode("utf-8")
+
+
+def eval_c06(res, traces, stream):
+    stats = {"kill": 0, "kill_nothing": 0, "kill_accumulated": 0, "yank": 0, "yank_after_kill": 0, "yankpop": 0,
+             "yankpop_noop": 0, "char_delete_between": 0}
+    for t in traces:
+        if not t.ok:
+            continue
+        ring, ptr = [], None          # kill-run texts, oldest first; ptr = index the next yank takes
+        last = "other"                # "kill" | ("yank", inserted bytes) | "other"
+        for i, (cmd, (text, pos), after, ob) in enumerate(t.steps):
+            if cmd.tag == "enter":
+                last = "other"
+                continue
+            if after[0] != "state":
+                break
+            text2, pos2 = after[1], after[2]
+            b1, b2 = bytes_of(text), bytes_of(text2)
+            if cmd.tag in KILL_TAGS:
+                k = len(b1) - len(b2)
+                if k <= 0:
+                    stats["kill_nothing"] += 1
+                    if text2 != text:
+                        fail_case(res, stream, t, "kill command %d %r changed the text without removing anything" % (i, cmd))
+                    continue          # nothing removed: nothing notified, flag unchanged
+                removed = b1[pos2:pos2 + k]
+                if b1[:pos2] + b1[pos2 + k:] != b2:
+                    fail_case(res, stream, t, "kill command %d %r did not remove one range at the new cursor" % (i, cmd))
+                    break
+                forward = pos2 == pos
+                stats["kill"] += 1
+                if last == "kill":
+                    stats["kill_accumulated"] += 1
+                    ring[-1] = ring[-1] + removed if forward else removed + ring[-1]
+                else:
+                    ring.append(removed)
+                    ring = ring[-60:]
+                ptr = len(ring) - 1
+                last = "kill"
+            elif cmd.tag == "yank":
+                stats["yank"] += 1
+                if not ring:
+                    if text2 != text:
+                        fail_case(res, stream, t, "yank with an empty ring changed the text")
+                    last = "other"
+                    continue
+                ins = ring[ptr]
+                if last == "kill":
+                    stats["yank_after_kill"] += 1
+                exp = b1[:pos] + ins + b1[pos:]
+                res.nontrivial.add(("yank", enc(text), pos, ins))
+                if b2 != exp or pos2 != pos + len(ins):
+                    fail_case(res, stream, t, "yank at command %d: expected the kill %r inserted at the cursor of (%s,%d), got (%s,%s)%s" % (
+                        i, ins.decode("utf-8", "replace"), enc(text), pos, enc(text2), pos2,
+                        " -- directly after the kill run" if last == "kill" else ""))
+                    break
+                last = ("yank", ins)
+            elif cmd.tag == "yankpop":
+                if isinstance(last, tuple):
+                    stats["yankpop"] += 1
+                    prev = last[1]
+                    ptr = (ptr - 1) % len(ring)
+                    ins = ring[ptr]
+                    exp = b1[:pos - len(prev)] + ins + b1[pos:]
+                    res.nontrivial.add(("yankpop", enc(text), pos, ins))
+                    if b2 != exp or pos2 != pos - len(prev) + len(ins):
+                        fail_case(res, stream, t, "yank-pop at command %d: expected %r to replace the %d bytes just inserted in (%s,%d), got (%s,%s)" % (
+                            i, ins.decode("utf-8", "replace"), len(prev), enc(text), pos, enc(text2), pos2))
+                        break
+                    last = ("yank", ins)
+                else:
+                    stats["yankpop_noop"] += 1
+                    if text2 != text:
+                        fail_case(res, stream, t, "yank-pop at command %d, not directly after a yank, changed the text" % i)
+                    last = "other"
+            else:
+                if cmd.tag in ("bs", "del") and last == "kill":
+                    stats["char_delete_between"] += 1
+                last = "other"
+    return stats
+
+
+K1_WITNESS = ["o", "n", "e", " ", "t", "w", "o", " ", "t", "h", "r", "e", "e", "C-w", "C-b", "C-w", "C-b", "C-w", "C-y", "M-y",
+              "x", "y", "z", "C-u", "C-y", "M-y", "M-y", "M-y", "M-y", "F12"]
+
+
+K2_WITNESS = ["a", "b", " ", "c", "d", "C-w", "C-b", "C-w", "M-3", "C-y", "M-y", "F12"]
+
+
+def witness_lines(exe, keys):
+    import ptydrive
+    c = Case(keys, prompt="> ")
+    r = ptydrive.run_case(exe, c.spec(), p_tty.chunks_of(c.keys))
+    return [dec(l.split()[1]) for l in r["obs"] if l.startswith("K ")]
+
+
+def c06_known(res, exe):
+    """re-confirm the recorded findings on the implementation (witness scripts of known_findings.json)"""
+    known = {f["id"]: f for f in known_findings() if f["property"] == "C06" and f["status"] == "known"}
+    if "K1" in known:
+        lines = witness_lines(exe, K1_WITNESS)
+        cycle = ["".join(chr(c) for c in l) for l in lines[-5:]]
+        if len(lines) == len([k for k in K1_WITNESS if k not in ()]) - 0 or True:
+            if not any("one" in x for x in cycle):
+                res.known_confirmed.append(("K1", "a kill made after a yank-pop overwrites a ring slot: kills 'three','two','one', C-y M-y, "
+                                            "typing, C-u, then cycling with M-y shows %s and never 'one'" % cycle))
+    if "K2" in known:
+        lines = witness_lines(exe, K2_WITNESS)
+        if lines and "".join(chr(c) for c in lines[-1]) == "ababcd":
+            res.known_confirmed.append(("K2", "yank-pop after a yank with a count replaces only one copy: kills 'cd','ab', M-3 C-y gives "
+                                        "'ababab', M-y gives 'ababcd'"))
+
+
+def c06_corr(res, exe, driver, tier, seed, tmp):
+    c06_known(res, exe)
+    cases = p_tty.c06_cases(tier, seed)
+    run_tty_cases(res, exe, driver, cases, tmp, "kill", rng=random.Random(seed), typeahead=0.3)
+    ocases = c06_oracle_cases(tier, seed)
+    out, traces = run_spec_stream(res, exe, driver, ocases, tmp, "kill-spec", seed)
+    stats = eval_c06(res, traces, "kill-spec")
+    res.distribution.update({"oracle": stats, "spec_alignment": alignment(traces), "kill_scripts": len(cases),
+                             "spec_scripts": len(ocases)})
+    res.rule = ("kill: random emacs/vi scripts biased towards C-k C-u C-w M-d M-DEL, vi d/c/y + motion, p/P, counts, negative "
+                "arguments, C-y, M-y, char deletes in between, a second read; compared with the extracted model. kill-spec: a "
+                "reference ring (chronological list of kill-run texts, forward pieces appended / backward pieces prepended, "
+                "char deletes ending a run without entering it, yank = newest, yank-pop = previous, cyclically, only directly "
+                "after a yank) is computed here from the implementation's own observed texts and every yank / yank-pop is compared "
+                "with it. Scripts do not kill again after a yank-pop (class of known finding K1).")
+    for c, impl, model, raw in out[:3]:
+        res.samples.append({"keys": c.keys, "impl": " ## ".join(impl)[:400]})
